@@ -17,14 +17,10 @@ FlattenEquiv, for each of the 8 feature assignments, loads both sets into two co
 LoadOrder loads the structured set in every order of its modules (also: implemented later through lys_set_implemented,
 and LY_CTX_EXPLICIT_COMPILE + ly_ctx_compile) and compares the compiled prints of all modules with the first order.
 
-Every difference seen while writing the flattener was investigated; what remained is libyang's (known_findings.d/flatten.json):
-  refine-nested-inner-wins       a property refined by the uses nested in a grouping is not changed by the refine of the
-                                 outer uses (libyang applies the outer refine first); attributed by loading a third set,
-                                 flattened with that order, which must then print like the structured set
-  leaflist-min-typedef-default   a leaf-list with min-elements >= 1 keeps the default of its typedef (recognised in the
-                                 print; documents without an instance are accepted)
-  typedef-chain-inherit-null     crash; the generator avoids the shape (middle typedef of a chain of three without
-                                 default / units), the finding is replayed from its recorded witness
+Every difference seen while writing the flattener was investigated; three were libyang's and are fixed in /repo (a
+reappearance is a plain violation, nothing is attributed or avoided any more): a property refined by the uses nested in a
+grouping was not changed by the refine of the outer uses (9a6fde6); a leaf-list with min-elements >= 1 kept the default of
+its typedef (7484206); NULL dereference in lys_compile_type on a chain of three typedefs (bf5769e).
 Legitimate differences the flattener follows instead of normalising: the implicit case of a shorthand node added to a choice
 by a conditional augment is written as an explicit case carrying the condition; the children that the augments of nested
 uses add to one node are written in libyang's order (outer uses first).
@@ -265,13 +261,7 @@ def parse_restriction(text, ty, base):
 class Flattener:
     """mods: name -> S (module / submodule statement). Everything is looked up in the statements."""
 
-    def __init__(self, mods, inner_refine_wins=False, llist_min_keeps_default=False):
-        # llist_min_keeps_default: NOT the RFC semantics - emulates the listed finding leaflist-min-typedef-default
-        self.llist_min_keeps_default = llist_min_keeps_default
-        # inner_refine_wins: NOT the RFC semantics - emulates the listed libyang finding refine-nested-inner-wins (a
-        # property refined by an inner uses is not changed by the refine of an outer uses); only used to attribute a
-        # difference to that finding
-        self.inner_refine_wins = inner_refine_wins
+    def __init__(self, mods):
         mods = {k: v.copy() for k, v in mods.items()}      # the statements are rewritten in place below
         self.mods = mods
         self.main = {}          # submodule name -> main module name
@@ -420,11 +410,10 @@ class Flattener:
         done = getattr(t, "refined", None)
         if done is None:
             done = t.refined = set()
-        skip = set(done) if self.inner_refine_wins else set()
         for s in rf.subs:
             done.add(s.kw)
         for s in rf.subs:
-            if s.kw == "default" or s.kw in skip:
+            if s.kw == "default":
                 continue
             if s.kw in ("mandatory", "config", "presence", "min-elements", "max-elements"):
                 t.set(s.kw, s.arg)
@@ -435,7 +424,7 @@ class Flattener:
                 t.subs.insert(0, c)
             elif s.kw == "must":
                 t.subs.append(s.copy())
-        dfl = rf.findall("default") if "default" not in skip else []
+        dfl = rf.findall("default")
         if dfl:
             t.drop("default")
             for d in dfl:
@@ -539,7 +528,7 @@ class Flattener:
                 # RFC 7950 7.6.1 / 7.7.2: the default of the type is used when the leaf has none and is not mandatory
                 # (leaf-list: min-elements 0); 7.8.2: a default of a key leaf's type is ignored
                 if dflt is not None and n.find("default") is None and n.arg not in keys and \
-                        n.val("mandatory") != "true" and (int(n.val("min-elements", "0")) == 0 or self.llist_min_keeps_default):
+                        n.val("mandatory") != "true" and int(n.val("min-elements", "0")) == 0:
                     n.subs.append(S("default", dflt))
                     n.subs[-1].inherited = True
             else:
@@ -786,13 +775,9 @@ class Gen:
                     t.add(S("pattern", rng.choice(["[a-z]*", "[a-m]*", "[a-z0-9]*"])))
             t.stamp("fa")
             eff, dflt, units = self.fl.type_eff(t)
-            # (the middle typedef of a chain of three always has both: otherwise libyang dereferences a null pointer in
-            # lys_compile_type when the last typedef is used a second time - listed finding typedef-chain-inherit-null)
-            force = depth == 3 and d == 1 and not os.environ.get("FLATTEN_NO_AVOID")     # (switch for checking a fix)
-            if (dflt is not None and not eff.accepts(dflt)) or (dflt is None and rng.random() < 0.35) or rng.random() < 0.1 \
-                    or (force and td.find("default") is None):
+            if (dflt is not None and not eff.accepts(dflt)) or (dflt is None and rng.random() < 0.35) or rng.random() < 0.1:
                 td.add(S("default", pick_value(rng, eff)))
-            if rng.random() < 0.25 or force:
+            if rng.random() < 0.25:
                 td.add(S("units", rng.choice(["m", "s", "kg", "pkt"])))
             td.stamp("fa")
             prev = name
@@ -858,8 +843,7 @@ class Gen:
                     vals.append(v)
             for v in vals:
                 ll.add(S("default", v))
-        elif r < 0.75 and allow_mand and not need_dflt and (dflt is None or rng.random() < 0.15):
-            # (mostly without a default in the type: listed finding leaflist-min-typedef-default)
+        elif r < 0.75 and allow_mand and not need_dflt:
             ll.add(S("min-elements", str(rng.choice([1, 2]))))
         elif need_dflt:
             ll.add(S("default", pick_value(rng, eff)))
@@ -1040,8 +1024,7 @@ class SetGen(Gen):
                     rf.add(S("min-elements", str(nm_)))
                     if mx is not None and int(mx) < nm_:
                         rf.add(S("max-elements", str(nm_ + 1)))
-                elif not t.findall("default") and mod == "fa" and rng.random() < 0.5 and (dflt is None or rng.random() < 0.15) and \
-                        (dflt is None or eff.accepts(dflt)):
+                elif not t.findall("default") and mod == "fa" and rng.random() < 0.5 and (dflt is None or eff.accepts(dflt)):
                     rf.add(S("min-elements", str(rng.choice([1, 2]))))
                     rf.add(S("max-elements", str(rng.choice([2, 3, 5]))))
                 else:
@@ -1085,8 +1068,6 @@ class SetGen(Gen):
         if not opts:
             return None
         rng.choice(opts)()
-        if rf.subs and {x.kw for x in rf.subs} & getattr(t, "refined", set()) and rng.random() < 0.85:
-            return None          # (refining twice what an inner uses refined: listed finding refine-nested-inner-wins)
         return rf if rf.subs else None
 
     def build(self):
@@ -1636,59 +1617,17 @@ def mutations(rng, gen, doc):
 # ------------------------------------------------------------------------------------------------
 # the oracles
 # ------------------------------------------------------------------------------------------------
-def strip_llist_min_defaults(text):
-    """remove the default lines of leaf-list blocks that have min-elements >= 1 (what the listed finding
-    leaflist-min-typedef-default adds to the compiled schema)"""
-    lines = text.split("\n")
-    out = []
-    i = 0
-    while i < len(lines):
-        if re.match(r"\s*leaf-list \S+ \{", lines[i]):
-            depth, j = 0, i
-            while True:
-                depth += lines[j].count("{") - lines[j].count("}")
-                j += 1
-                if depth == 0 or j >= len(lines):
-                    break
-            blk = lines[i:j]
-            if any(re.match(r"\s*min-elements [1-9]", b) for b in blk):
-                blk = [b for b in blk if not re.match(r'\s*default "', b)]
-            out += blk
-            i = j
-        else:
-            out.append(lines[i])
-            i += 1
-    return "\n".join(out)
-
-
 def make_sets(rng):
-    """-> structured statements, flattened statements (RFC), alternative flattenings that emulate listed findings
-    {tag: statements} (only those whose text differs from the RFC one), Python model"""
+    """-> structured statements, flattened statements, Python model of the flattened set"""
     g = SetGen(rng)
     mods = g.build()
     devs = mods["fd"].findall("deviation")
     fd_plain = S("module", "fd").add(*[s.copy() for s in mods["fd"].subs if s.kw in ("yang-version", "namespace", "prefix", "import")])
-
-    bad_dev = []
-
-    def flat(**kw):
-        fl = Flattener(mods, **kw)
-        fl.dev_mismatch = False
-        r = {"fa": fl.flatten_module("fa", devs), "fb": fl.flatten_module("fb"), "fd": fd_plain}
-        if fl.dev_mismatch and kw:
-            # with the emulated finding a deviate delete has nothing to delete: fd is rejected; written as a module
-            # that does not parse so that the emulating set fails at the same step
-            r["fd"] = S("module", "fd").add(S("invalid-by-emulation", "x"))
-            bad_dev.append(1)
-        return r
-    f0 = flat()
-    alts = {}
-    for tag, kw in (("refine-nested-inner-wins", {"inner_refine_wins": True}),):
-        fx = flat(**kw)
-        if any(fx[k].text() != f0[k].text() for k in ("fa", "fb", "fd")):
-            if not any(all(fx[k].text() == a[k].text() for k in ("fa", "fb", "fd")) for a in alts.values()):
-                alts[tag] = fx
-    return mods, f0, alts, build_model(f0["fa"], f0["fb"])
+    fl = Flattener(mods)
+    fl.dev_mismatch = False
+    f0 = {"fa": fl.flatten_module("fa", devs), "fb": fl.flatten_module("fb"), "fd": fd_plain}
+    assert not fl.dev_mismatch, "generator: a deviate delete without a matching property"
+    return mods, f0, build_model(f0["fa"], f0["fb"])
 
 
 def feats_arg(env):
@@ -1718,7 +1657,7 @@ class FlattenEquiv:
         return max(1, int((thorough if tier == "thorough" else quick) * scale))
 
     def build_case(self, rng, envs=None):
-        mods, f0, alts, model = make_sets(rng)
+        mods, f0, model = make_sets(rng)
         cmds, meta = [], []
 
         def add(cmd, *m):
@@ -1728,11 +1667,6 @@ class FlattenEquiv:
             add("def s/%s %s" % (k, hexs(v.text())), "def")
         for k, v in f0.items():
             add("def f/%s %s" % (k, hexs(v.text())), "def")
-        altsets = {}
-        for j, (tag, fx) in enumerate(alts.items()):
-            altsets["g%d" % j] = tag
-            for k, v in fx.items():
-                add("def g%d/%s %s" % (j, k, hexs(v.text())), "def")
         allenvs = [dict(zip(FEATS, bits)) for bits in itertools.product([False, True], repeat=3)]
         for ei, env in enumerate(envs or allenvs):
             fa = feats_arg(env)
@@ -1746,7 +1680,7 @@ class FlattenEquiv:
                         docs.append((lab, xml_of(md)))
                 dg.sure = True
             exp = expected_nodes(model, env)
-            for ci, (cset, ctag) in enumerate([("s", None), ("f", None)] + [(k, t) for k, t in altsets.items()]):
+            for ci, (cset, ctag) in enumerate([("s", None), ("f", None)]):
                 c = "c%d" % ci
                 add("ctx %s 0 %s" % (c, cset), "ctx")
                 add("load %s fa %s" % (c, fa), "load", ei, cset)
@@ -1787,49 +1721,22 @@ class FlattenEquiv:
             if not oks and not okf:
                 continue                      # both reject the generated set: not a case for this oracle
             if oks != okf:
-                # the same verdict from the flattening that emulates a listed finding?
-                for (e2, cset), items in by.items():
-                    first_bad = lambda l: next((i for i, x in enumerate(l) if x.split("/")[0] != "0"), None)      # noqa: E731
-                    if e2 == ei and cset not in ("s", "f") and not oks and \
-                            first_bad([x for m, x in items if m[0] == "load"]) == first_bad(ls):
-                        tag = next(m[3] for m, x in items if m[0] == "schema")
-                        return (tag, "features %d: the structured set is rejected exactly as the flattening that emulates the "
-                                "listed finding: %s" % (ei, ls))
                 return (None, "features %d: the structured set %s, the flattened twin %s: %s / %s" %
                         (ei, "loads" if oks else "is rejected", "loads" if okf else "is rejected", ls, lf))
             judged = True
             ps = norm_print(unhex(next(x for m, x in S_ if m[0] == "schema").split(" ")[1]).decode())
             pf = norm_print(unhex(next(x for m, x in F_ if m[0] == "schema").split(" ")[1]).decode())
-            known = None
-            if ps != pf and strip_llist_min_defaults(ps) == pf:
-                known = "leaflist-min-typedef-default"
-            elif ps != pf:
-                # is the difference the one a listed finding makes?
-                for (e2, cset), items in by.items():
-                    if e2 != ei or cset in ("s", "f"):
-                        continue
-                    if not all(x == "0" for m, x in items if m[0] == "load"):
-                        continue
-                    m2, x2 = next((m, x) for m, x in items if m[0] == "schema")
-                    pa = norm_print(unhex(x2.split(" ")[1]).decode())
-                    if pa == ps:
-                        known = m2[3]
-                        break
-                    if pa == strip_llist_min_defaults(ps):
-                        known = m2[3] + "+leaflist-min-typedef-default"
-                        break
-                if known is None:
-                    import difflib
-                    d = "".join(list(difflib.unified_diff(ps.splitlines(1), pf.splitlines(1), "structured", "flattened", n=2))[:40])
-                    return (None, "features %d: compiled prints of fa differ:\n%s" % (ei, d))
+            if ps != pf:
+                import difflib
+                d = "".join(list(difflib.unified_diff(ps.splitlines(1), pf.splitlines(1), "structured", "flattened", n=2))[:40])
+                return (None, "features %d: compiled prints of fa differ:\n%s" % (ei, d))
             ms, ns = next((m, x) for m, x in S_ if m[0] == "snodes")
             mf, nf = next((m, x) for m, x in F_ if m[0] == "snodes")
             exp = ms[3]
             gs = sorted(x for x in ns.rstrip(".").split(";") if x)
             gf = sorted(x for x in nf.rstrip(".").split(";") if x)
             if gs != gf or gs != exp:
-                if known is None:
-                    return (None, "features %d: schema nodes: only structured %s, only flattened %s, only expected %s, missing "
+                return (None, "features %d: schema nodes: only structured %s, only flattened %s, only expected %s, missing "
                             "from structured %s" % (ei, [x for x in gs if x not in gf][:6], [x for x in gf if x not in gs][:6],
                                                     [x for x in exp if x not in gs][:6], [x for x in gs if x not in exp][:6]))
             ds = [(m, x) for m, x in S_ if m[0] == "data"]
@@ -1838,17 +1745,11 @@ class FlattenEquiv:
                 lab, doc = m[3], m[4]
                 vs, vf = xs.split("~")[0].split(" ")[0], xf.split("~")[0].split(" ")[0]
                 if vs != vf or (vs == "0" and xs != xf):
-                    t = known.split("+")[-1] if known and "leaflist" in known else (known.split("+")[0] if known else None)
-                    if known and (lab in ("too-few", "valid", "unsure") or vs == "0" or vf == "0"):
-                        return (t, "features %d: document (%s) %s: structured %s, flattened %s" % (ei, lab, doc[:300], xs[:120], xf[:120]))
                     return (None, "features %d: document (%s) %s: structured %s, flattened %s" % (ei, lab, doc[:300], xs[:120], xf[:120]))
                 if lab == "valid" and vs != "0":
                     return (None, "features %d: a document valid by construction is rejected by both: %s -> %s" % (ei, doc[:400], xs[:160]))
                 if lab not in ("valid", "unsure") and vs == "0":
                     return (None, "features %d: a document with the mutation %s is accepted by both: %s" % (ei, lab, doc[:400]))
-            if known:
-                return (known.split("+")[0], "features %d: the compiled print differs from the RFC flattening exactly as the listed "
-                        "finding predicts" % ei)
         if not judged:
             self.skipped += 1
         return None
@@ -1862,7 +1763,7 @@ class LoadOrder(FlattenEquiv):
     name = "load-order"
 
     def build_case(self, rng):
-        mods, f0, alts, model = make_sets(rng)
+        mods, f0, model = make_sets(rng)
         env = {f: rng.random() < 0.6 for f in FEATS}
         fa = feats_arg(env)
         cmds, meta = [], []
